@@ -65,22 +65,24 @@ type Result struct {
 	Syncs      int
 	Rewrites   int
 	Unsim      []string // unsimulated socket calls found ("file:line: pkg.Func")
+	Selects    int
 	SyncReturn []string // return statements that contain a blocking operation (no after-sync possible)
 }
 
 type inst struct {
-	fset     *token.FileSet
-	file     *ast.File
-	src      []byte
-	short    string
-	splices  []splice
-	seq      int
-	pkgNames map[string]string // local name -> import path
-	res      *Result
-	useSimrt bool
-	useNet   bool
+	fset       *token.FileSet
+	file       *ast.File
+	src        []byte
+	short      string
+	splices    []splice
+	seq        int
+	pkgNames   map[string]string // local name -> import path
+	res        *Result
+	useSimrt   bool
+	useNet     bool
 	keep       []string
 	addedLines int
+	labeled    map[ast.Stmt]bool
 }
 
 // File instruments one source file. short is the site prefix (e.g. "collector/tcp.go").
@@ -137,7 +139,7 @@ func File(filename, short string, src []byte, steps bool) (*Result, error) {
 
 func (in *inst) extraLines() int { return in.addedLines }
 
-func (in *inst) off(p token.Pos) int { return in.fset.Position(p).Offset }
+func (in *inst) off(p token.Pos) int  { return in.fset.Position(p).Offset }
 func (in *inst) line(p token.Pos) int { return in.fset.Position(p).Line }
 func (in *inst) site(p token.Pos) string {
 	return fmt.Sprintf("%s:%d", in.short, in.line(p))
@@ -415,6 +417,10 @@ func (in *inst) stmt(s ast.Stmt) {
 		return
 	case *ast.LabeledStmt:
 		in.step(x.Pos())
+		if in.labeled == nil {
+			in.labeled = map[ast.Stmt]bool{}
+		}
+		in.labeled[x.Stmt] = true
 		in.inner(x.Stmt)
 		return
 	}
@@ -461,7 +467,9 @@ func (in *inst) inner(s ast.Stmt) {
 		in.funcLits(x.Init, nil)
 		in.funcLits(x.Assign, nil)
 	case *ast.SelectStmt:
-		in.syncBefore(x.Pos())
+		if !in.detSelect(x) {
+			in.syncBefore(x.Pos())
+		}
 		for _, c := range x.Body.List {
 			cc := c.(*ast.CommClause)
 			in.insert(in.off(cc.Colon)+1, fmt.Sprintf("simrt.Branch(%q);", in.site(cc.Pos())))
@@ -497,6 +505,77 @@ func (in *inst) inner(s ast.Stmt) {
 		}
 		in.funcLits(s, nil)
 	}
+}
+
+// detSelect makes a select statement deterministic: every channel expression is evaluated
+// once into a temporary (in source order, as the statement itself does), the temporaries are
+// handed to simrt.Sel, and each case uses its temporary through simrt.MR / simrt.MS, which
+// return nil for the cases that must not fire. Returns false (nothing done) for shapes it
+// does not handle: labeled statements, channel expressions spanning lines, selects inside
+// the header of another statement.
+func (in *inst) detSelect(x *ast.SelectStmt) bool {
+	if in.labeled[x] {
+		return false
+	}
+	type cs struct {
+		ch   ast.Expr
+		send bool
+	}
+	var cases []cs
+	for _, c := range x.Body.List {
+		cc := c.(*ast.CommClause)
+		switch st := cc.Comm.(type) {
+		case nil: // default
+		case *ast.SendStmt:
+			cases = append(cases, cs{st.Chan, true})
+		case *ast.ExprStmt:
+			u, ok := st.X.(*ast.UnaryExpr)
+			if !ok || u.Op != token.ARROW {
+				return false
+			}
+			cases = append(cases, cs{u.X, false})
+		case *ast.AssignStmt:
+			if len(st.Rhs) != 1 {
+				return false
+			}
+			u, ok := st.Rhs[0].(*ast.UnaryExpr)
+			if !ok || u.Op != token.ARROW {
+				return false
+			}
+			cases = append(cases, cs{u.X, false})
+		default:
+			return false
+		}
+	}
+	if len(cases) == 0 || len(cases) > 60 {
+		return false
+	}
+	for _, c := range cases {
+		if in.line(c.ch.Pos()) != in.line(c.ch.End()) {
+			return false
+		}
+	}
+	id := in.off(x.Pos())
+	var pre strings.Builder
+	var args []string
+	mask := uint64(0)
+	for i, c := range cases {
+		text := string(in.src[in.off(c.ch.Pos()):in.off(c.ch.End())])
+		tmp := fmt.Sprintf("__c%d_%d", id, i)
+		fmt.Fprintf(&pre, "%s := %s;", tmp, text)
+		args = append(args, tmp)
+		fn := "MR"
+		if c.send {
+			fn = "MS"
+			mask |= 1 << uint(i)
+		}
+		in.replace(in.off(c.ch.Pos()), in.off(c.ch.End())-in.off(c.ch.Pos()), fmt.Sprintf("simrt.%s(__s%d, %d, %s)", fn, id, i, tmp))
+	}
+	fmt.Fprintf(&pre, "__s%d := simrt.Sel(%q, %d, %s);", id, in.site(x.Pos()), mask, strings.Join(args, ", "))
+	in.insert(in.off(x.Pos()), pre.String())
+	in.res.Syncs++
+	in.res.Selects++
+	return true
 }
 
 func (in *inst) ifStmt(x *ast.IfStmt, top bool) {
